@@ -13,11 +13,22 @@
  * argv[1] = scratch directory (key files of the W op are written there).
  *
  * Line protocol (hex tokens, "-" = empty):
- *  H <alg> <h|s> <reps> <msg> <parts>        hash ctx on heap / stack
- *  M <alg> <h|s> <reps> <key> <msg> <parts>  HMAC ctx on heap / stack
+ *  H <alg> <h|s>[off] <reps> <msg> <parts>        hash ctx on heap / stack
+ *  M <alg> <h|s>[off] <reps> <key> <msg> <parts>  HMAC ctx on heap / stack
+ *      the context object is placed `off` bytes (a multiple of its alignment,
+ *      < 16; default 0) past a 16-byte boundary: at the end of an exact
+ *      (off + size)-byte heap block, or inside an aligned array in a frame
  *      -> R ok <nctx> <nbytes> <digest>  |  R NZ rep=<r> off=<o> cnt=<n> size=<s>
- *  K <key> <nblk>                   expand, encrypt nblk blocks, key_free
- *  S <key1> <key2|-> <script>       AES-CTR object life; script = comma list of
+ *  Z <maxlen> <fill>                insecure_memzero(p + off, len) for every len
+ *      0..maxlen and off 0..15 (p 16-byte aligned), on a heap block with 16
+ *      spare bytes behind, on an exact heap block and on a stack array, all
+ *      pre-filled with <fill> (hex byte, not 00): [off, off+len) must be zero,
+ *      everything else untouched
+ *      -> R ok calls=<n> bytes=<n>  |  R BAD what=<unwiped|touched> where=<heap|
+ *         exact|stack> len=<l> off=<o> idx=<first bad index in the buffer> cnt=<n>
+ *  K <key> <nblk> [m]               expand, encrypt nblk blocks, key_free
+ *      m: the library's allocations are 8 mod 16 (wa_misalign)
+ *  S <key1> <key2|-> <script> [m]   AES-CTR object life; script = comma list of
  *        i:<nonce>      stream = crypto_aesctr_init(key1, nonce)
  *        a              stream = crypto_aesctr_alloc()
  *        r:<k>:<nonce>  crypto_aesctr_init2(stream, k==0 ? NULL : key<k>, nonce)
@@ -54,6 +65,7 @@
 #include "wrapalloc.h"
 
 #include "aws_readkeys.h"
+#include "insecure_memzero.h"
 #include "crypto_aes.h"
 #include "crypto_aesctr.h"
 #include "crypto_dh.h"
@@ -314,7 +326,10 @@ crash_signal(int sig)
  * to the last store and cache the hook's counters across the call.
  */
 #define BARRIER() __asm__ volatile("" : : : "memory")
-#define LIB(stmt) do { g_mode = 1; BARRIER(); stmt; BARRIER(); g_mode = 0; } while (0)
+/* g_mis: the library's own allocations in this case are made 8 mod 16. */
+static int g_mis;
+#define LIB(stmt) do { g_mode = 1; wa_misalign(g_mis); BARRIER(); stmt; \
+	BARRIER(); wa_misalign(0); g_mode = 0; } while (0)
 #define CONTROL(stmt) do { g_mode = 2; BARRIER(); stmt; BARRIER(); g_mode = 0; } while (0)
 /* The compiler must believe the block's contents are used (otherwise it
    deletes a malloc/fill/free sequence altogether). */
@@ -508,9 +523,13 @@ struct ctxjob {
 	size_t badoff, badcnt;
 };
 
-/* init, update*, final, look at the object; reps times on the same object. */
+/*
+ * init, update*, final, look at the object; reps times on the same object.
+ * c is only aligned for the context type in use (not for union anyctx), so it
+ * is converted to that type and nothing else.
+ */
 static void
-run_ctx(struct ctxjob * j, union anyctx * c, size_t csz)
+run_ctx(struct ctxjob * j, void * c, size_t csz)
 {
 	int r;
 	size_t i, off;
@@ -524,15 +543,15 @@ run_ctx(struct ctxjob * j, union anyctx * c, size_t csz)
 		off = 0;
 		if (j->hm) {
 			switch (j->a) {
-			case 0: HMAC_SHA256_Init(&c->h256, j->k, j->klen); break;
-			case 1: HMAC_SHA1_Init(&c->h1, j->k, j->klen); break;
-			case 2: HMAC_MD5_Init(&c->hm5, j->k, j->klen); break;
+			case 0: HMAC_SHA256_Init((HMAC_SHA256_CTX *)c, j->k, j->klen); break;
+			case 1: HMAC_SHA1_Init((HMAC_SHA1_CTX *)c, j->k, j->klen); break;
+			case 2: HMAC_MD5_Init((HMAC_MD5_CTX *)c, j->k, j->klen); break;
 			}
 		} else {
 			switch (j->a) {
-			case 0: SHA256_Init(&c->s256); break;
-			case 1: SHA1_Init(&c->s1); break;
-			case 2: MD5_Init(&c->m5); break;
+			case 0: SHA256_Init((SHA256_CTX *)c); break;
+			case 1: SHA1_Init((SHA1_CTX *)c); break;
+			case 2: MD5_Init((MD5_CTX *)c); break;
 			}
 		}
 		for (i = 0; i < j->np; i++) {
@@ -543,15 +562,15 @@ run_ctx(struct ctxjob * j, union anyctx * c, size_t csz)
 				vh_die("parts exceed message");
 			if (j->hm) {
 				switch (j->a) {
-				case 0: HMAC_SHA256_Update(&c->h256, p, n); break;
-				case 1: HMAC_SHA1_Update(&c->h1, p, n); break;
-				case 2: HMAC_MD5_Update(&c->hm5, p, n); break;
+				case 0: HMAC_SHA256_Update((HMAC_SHA256_CTX *)c, p, n); break;
+				case 1: HMAC_SHA1_Update((HMAC_SHA1_CTX *)c, p, n); break;
+				case 2: HMAC_MD5_Update((HMAC_MD5_CTX *)c, p, n); break;
 				}
 			} else {
 				switch (j->a) {
-				case 0: SHA256_Update(&c->s256, p, n); break;
-				case 1: SHA1_Update(&c->s1, p, n); break;
-				case 2: MD5_Update(&c->m5, p, n); break;
+				case 0: SHA256_Update((SHA256_CTX *)c, p, n); break;
+				case 1: SHA1_Update((SHA1_CTX *)c, p, n); break;
+				case 2: MD5_Update((MD5_CTX *)c, p, n); break;
 				}
 			}
 			off += n;
@@ -560,15 +579,15 @@ run_ctx(struct ctxjob * j, union anyctx * c, size_t csz)
 			vh_die("parts do not cover message");
 		if (j->hm) {
 			switch (j->a) {
-			case 0: HMAC_SHA256_Final(j->d, &c->h256); break;
-			case 1: HMAC_SHA1_Final(j->d, &c->h1); break;
-			case 2: HMAC_MD5_Final(j->d, &c->hm5); break;
+			case 0: HMAC_SHA256_Final(j->d, (HMAC_SHA256_CTX *)c); break;
+			case 1: HMAC_SHA1_Final(j->d, (HMAC_SHA1_CTX *)c); break;
+			case 2: HMAC_MD5_Final(j->d, (HMAC_MD5_CTX *)c); break;
 			}
 		} else {
 			switch (j->a) {
-			case 0: SHA256_Final(j->d, &c->s256); break;
-			case 1: SHA1_Final(j->d, &c->s1); break;
-			case 2: MD5_Final(j->d, &c->m5); break;
+			case 0: SHA256_Final(j->d, (SHA256_CTX *)c); break;
+			case 1: SHA1_Final(j->d, (SHA1_CTX *)c); break;
+			case 2: MD5_Final(j->d, (MD5_CTX *)c); break;
 			}
 		}
 		/* Monitor: every byte of the context object. */
@@ -589,18 +608,32 @@ run_ctx(struct ctxjob * j, union anyctx * c, size_t csz)
 }
 
 static void __attribute__((noinline))
-run_ctx_stack(struct ctxjob * j, size_t csz)
+run_ctx_stack(struct ctxjob * j, size_t csz, size_t aoff)
 {
-	union anyctx c;		/* the context lives in this frame */
+	/* the context lives in this frame, aoff bytes past a 16-byte boundary */
+	_Alignas(16) uint8_t frame[sizeof(union anyctx) + 16];
+	void * c = frame + aoff;
 
-	run_ctx(j, &c, csz);
+	KEEP(c);
+	run_ctx(j, c, csz);
+}
+
+static size_t
+ctxalign(int a, int hm)
+{
+
+	if (hm)
+		return ((a == 0) ? _Alignof(HMAC_SHA256_CTX) :
+		    (a == 1) ? _Alignof(HMAC_SHA1_CTX) : _Alignof(HMAC_MD5_CTX));
+	return ((a == 0) ? _Alignof(SHA256_CTX) :
+	    (a == 1) ? _Alignof(SHA1_CTX) : _Alignof(MD5_CTX));
 }
 
 static void
 op_ctx(struct vh_line * L, int hm)
 {
 	struct ctxjob j;
-	size_t klen = 0, mlen, np, csz;
+	size_t klen = 0, mlen, np, csz, aoff;
 	uint8_t * k = NULL, * m;
 	size_t * parts;
 	void * fk = NULL, * fm, * fd, * fc;
@@ -613,6 +646,10 @@ op_ctx(struct vh_line * L, int hm)
 	j.reps = (int)vh_tok_u(L, 3);
 	if (j.reps < 1 || j.reps > 100)
 		vh_die("bad reps");
+	aoff = (size_t)strtoul(loc + 1, NULL, 10);
+	if (aoff >= 16 || aoff % ctxalign(j.a, hm) != 0)
+		vh_die("offset %zu is not a legal placement for this context "
+		    "type (alignment %zu)", aoff, ctxalign(j.a, hm));
 	if (hm) {
 		k = vh_tok_hex(L, t++, &klen);
 		j.k = vh_exact(k, klen, &fk);
@@ -627,13 +664,16 @@ op_ctx(struct vh_line * L, int hm)
 	j.d = vh_exact(NULL, dlen[j.a], &fd);
 	csz = ctxsize(j.a, hm);
 	if (loc[0] == 'h') {
-		/* exact-size heap object: a wipe of the wrong size shows. */
-		union anyctx * c = (union anyctx *)vh_exact(NULL, csz, &fc);
+		/* The object ends where an exact-size heap block ends (a wipe
+		   of the wrong size shows); it starts aoff bytes into it. */
+		uint8_t * blk = vh_exact(NULL, aoff + csz, &fc);
 
-		run_ctx(&j, c, csz);
+		if ((uintptr_t)blk % 16 != 0)
+			vh_die("heap block is not 16-byte aligned");
+		run_ctx(&j, blk + aoff, csz);
 		free(fc);
 	} else if (loc[0] == 's') {
-		run_ctx_stack(&j, csz);
+		run_ctx_stack(&j, csz, aoff);
 	} else
 		vh_die("bad location %s", loc);
 	if (j.bad)
@@ -655,6 +695,97 @@ op_ctx(struct vh_line * L, int hm)
 }
 
 /* ------------------------------------------------------------------ */
+/* (a') the wiping primitive itself                                    */
+/* ------------------------------------------------------------------ */
+struct zres {
+	uint64_t calls, bytes;
+	int bad;
+	const char * what, * where;
+	size_t len, off, idx, cnt;
+};
+
+/*
+ * buf[0..total) is filled, insecure_memzero(buf + off, len) is called, then
+ * exactly [off, off + len) must be zero and every other byte still `fill`.
+ */
+static void
+zero_one(struct zres * z, uint8_t * buf, size_t total, size_t off, size_t len,
+    uint8_t fill, const char * where)
+{
+	const volatile uint8_t * v = buf;
+	size_t i, nun = 0, ntouch = 0, fun = 0, ftouch = 0;
+
+	memset(buf, fill, total);
+	KEEP(buf);
+	insecure_memzero(buf + off, len);
+	for (i = 0; i < total; i++) {
+		if (i >= off && i < off + len) {
+			if (v[i] != 0 && nun++ == 0)
+				fun = i;
+		} else if (v[i] != fill && ntouch++ == 0)
+			ftouch = i;
+	}
+	z->calls++;
+	z->bytes += len;
+	if ((nun || ntouch) && !z->bad) {
+		z->bad = 1;
+		z->what = nun ? "unwiped" : "touched";
+		z->where = where;
+		z->len = len;
+		z->off = off;
+		z->idx = nun ? fun : ftouch;
+		z->cnt = nun ? nun : ntouch;
+	}
+}
+
+static void __attribute__((noinline))
+zero_stack(struct zres * z, size_t off, size_t len, uint8_t fill)
+{
+	_Alignas(16) uint8_t sb[16 + 1024 + 32];
+
+	zero_one(z, sb, off + len + 16, off, len, fill, "stack");
+}
+
+static void
+op_memzero(struct vh_line * L)
+{
+	size_t maxlen = (size_t)vh_tok_u(L, 1);
+	uint8_t fill = (uint8_t)strtoul(vh_tok(L, 2), NULL, 16);
+	struct zres z;
+	size_t len, off;
+
+	if (maxlen > 1024 || fill == 0)
+		vh_die("bad Z arguments");
+	memset(&z, 0, sizeof(z));
+	for (len = 0; len <= maxlen; len++) {
+		for (off = 0; off < 16; off++) {
+			void * f1, * f2;
+			uint8_t * b;
+
+			/* room behind: writing past the end shows as "touched" */
+			b = vh_exact(NULL, off + len + 16, &f1);
+			if ((uintptr_t)b % 16 != 0)
+				vh_die("heap block is not 16-byte aligned");
+			zero_one(&z, b, off + len + 16, off, len, fill, "heap");
+			free(f1);
+			/* exact: writing past the end is an ASan report */
+			if (off + len > 0) {
+				b = vh_exact(NULL, off + len, &f2);
+				zero_one(&z, b, off + len, off, len, fill, "exact");
+				free(f2);
+			}
+			zero_stack(&z, off, len, fill);
+		}
+	}
+	if (z.bad)
+		printf("R BAD what=%s where=%s len=%zu off=%zu idx=%zu cnt=%zu\n",
+		    z.what, z.where, z.len, z.off, z.idx, z.cnt);
+	else
+		printf("R ok calls=%" PRIu64 " bytes=%" PRIu64 "\n", z.calls,
+		    z.bytes);
+}
+
+/* ------------------------------------------------------------------ */
 /* (b) AES keys and AES-CTR stream objects                             */
 /* ------------------------------------------------------------------ */
 
@@ -662,6 +793,12 @@ struct refkey {
 	uint8_t rk[REFAES_MAXRK];
 	int nr;
 };
+
+/*
+ * Key bytes are searched for in windows of 8: half a round key left behind
+ * (e.g. a wipe that starts or stops 8 bytes off) is still key material.
+ */
+#define AESWIN 8
 
 /* Register everything an expanded form of this key could look like. */
 static void
@@ -675,9 +812,9 @@ aes_patterns(const uint8_t * key, size_t klen, struct refkey * R)
 		vh_die("bad AES key length %zu", klen);
 	n = 16 * ((size_t)R->nr + 1);
 	/* raw key (both halves for 256 bits) - also the first round key(s) */
-	pat_add(CLS_AESKEY, key, klen, 16);
+	pat_add(CLS_AESKEY, key, klen, AESWIN);
 	/* all round keys, byte layout (AES-NI __m128i images) */
-	pat_add(CLS_AESKEY, R->rk, n, 16);
+	pat_add(CLS_AESKEY, R->rk, n, AESWIN);
 	/* all round keys as host-order 32-bit words of big-endian loads
 	   (OpenSSL's portable AES_KEY) */
 	for (i = 0; i < n; i += 4) {
@@ -686,7 +823,7 @@ aes_patterns(const uint8_t * key, size_t klen, struct refkey * R)
 		sw[i + 2] = R->rk[i + 1];
 		sw[i + 3] = R->rk[i];
 	}
-	pat_add(CLS_AESKEY, sw, n, 16);
+	pat_add(CLS_AESKEY, sw, n, AESWIN);
 }
 
 /* Positive control for the malloc/free path: a tracked block holding the
@@ -728,7 +865,10 @@ op_aeskey(struct vh_line * L)
 	int encok = 1, impl;
 	struct vh_rng rng;
 
+	int mis;
+
 	pats_reset();
+	g_mis = (L->ntok > 3 && vh_tok(L, 3)[0] == 'm');
 	aes_patterns(key, klen, &R);
 	control_malloc();
 	kx = vh_exact(key, klen, &fk);
@@ -740,6 +880,7 @@ op_aeskey(struct vh_line * L)
 	if (k == NULL)
 		vh_die("crypto_aes_key_expand failed");
 	impl = crypto_aes_can_use_intrinsics();
+	mis = (((uintptr_t)k) % 16 == 8);
 	for (i = 0; i < nblk; i++) {
 		size_t b;
 
@@ -757,8 +898,9 @@ op_aeskey(struct vh_line * L)
 	present = scan((const uint8_t *)k, ksz, CLS_AESKEY, NULL);
 	LIB(crypto_aes_key_free(k));
 
-	printf("R impl=%d nr=%d objsize=%zu enc=%d present=%zu", impl, R.nr, ksz,
-	    encok, present);
+	g_mis = 0;
+	printf("R impl=%d nr=%d objsize=%zu enc=%d present=%zu mis=%d", impl, R.nr,
+	    ksz, encok, present, mis);
 	report_scan();
 	free(fk);
 	free(fi);
@@ -780,11 +922,12 @@ op_aesctr(struct vh_line * L)
 	int inited = 0;
 	char * script, * p, * e;
 	size_t present_ks = 0, present_key = 0, nobj = 0, nstream = 0, i;
-	int encok = 1, impl, kk;
+	int encok = 1, impl, kk, nmis = 0;
 	struct vh_rng rng;
 	uint64_t streamed = 0;
 
 	pats_reset();
+	g_mis = (L->ntok > 4 && vh_tok(L, 4)[0] == 'm');
 	key[1] = vh_tok_hex(L, 1, &klen[1]);
 	if (strcmp(vh_tok(L, 2), "-") != 0)
 		key[2] = vh_tok_hex(L, 2, &klen[2]);
@@ -798,6 +941,7 @@ op_aesctr(struct vh_line * L)
 		LIB(ek[kk] = crypto_aes_key_expand(kx, klen[kk]));
 		if (ek[kk] == NULL)
 			vh_die("crypto_aes_key_expand failed");
+		nmis += (((uintptr_t)ek[kk]) % 16 == 8);
 	}
 	impl = crypto_aes_can_use_intrinsics();
 	vh_seed(&rng, klen[1], klen[2]);
@@ -815,6 +959,7 @@ op_aesctr(struct vh_line * L)
 			LIB(st = crypto_aesctr_init(ek[1], nonce));
 			if (st == NULL)
 				vh_die("crypto_aesctr_init failed");
+			nmis += (((uintptr_t)st) % 16 == 8);
 			curkey = 1;
 			pos = 0;
 			inited = 1;
@@ -825,6 +970,7 @@ op_aesctr(struct vh_line * L)
 			LIB(st = crypto_aesctr_alloc());
 			if (st == NULL)
 				vh_die("crypto_aesctr_alloc failed");
+			nmis += (((uintptr_t)st) % 16 == 8);
 			inited = 0;
 			curkey = 0;
 			nobj++;
@@ -917,8 +1063,9 @@ op_aesctr(struct vh_line * L)
 		vh_free(key[kk]);
 	}
 	printf("R impl=%d objs=%zu streams=%zu streamed=%" PRIu64
-	    " enc=%d present=%zu presentkey=%zu", impl, nobj, nstream, streamed,
-	    encok, present_ks, present_key);
+	    " enc=%d present=%zu presentkey=%zu mis=%d", impl, nobj, nstream,
+	    streamed, encok, present_ks, present_key, nmis);
+	g_mis = 0;
 	report_scan();
 	vh_free(script);
 }
@@ -1189,6 +1336,9 @@ main(int argc, char ** argv)
 			break;
 		case 'M':
 			op_ctx(&L, 1);
+			break;
+		case 'Z':
+			op_memzero(&L);
 			break;
 		case 'K':
 			op_aeskey(&L);
